@@ -167,6 +167,9 @@ func applyPart(c *CfgCore, p *Part, owner int) {
 	if p.EmbS != nil {
 		c.EmbS = *p.EmbS
 	}
+	if p.EmbM != nil {
+		c.Emb.M = cloneM(p.EmbM)
+	}
 	if p.After != nil {
 		c.After = *p.After
 	}
